@@ -316,17 +316,6 @@ def _render_to_exact(t, s):
     return int(z) if z.denominator == 1 else None
 
 
-def s2i_spec(s):
-    """The text encoding the property relies on, written from its description: the first eight
-    bytes of the UTF-8 form, zero padded, big endian, capped at MAX_INT64."""
-    b = s.encode("utf-8")[:8]
-    b = b + b"\x00" * (8 - len(b))
-    v = 0
-    for x in b:
-        v = v * 256 + x
-    return min(v, 2 ** 63 - 1)
-
-
 def _order_spec(d):
     """(order, transitions) from the data: transitions = adjacent unequal pairs; order None if none,
     1 if never descending, -1 if never ascending, else 0."""
@@ -792,6 +781,11 @@ def corpus():
     yield {"type": "INTEGER", "values": list(range(40)), "cut": 20}
     yield {"type": "INTEGER", "values": list(range(31, -1, -1)) + [None], "cut": 32}
     yield {"type": "VARCHAR", "values": ["w%02d" % (i % 35) for i in range(60)], "cut": 30}
+    for k in (31, 32, 33):      # around the sketch / frequent-value sizes
+        yield {"type": "INTEGER", "values": list(range(-3, k - 3)), "cut": 5}
+        yield {"type": "VARCHAR", "values": ["v%02d" % i for i in range(k)] + ["v00", None], "cut": k}
+        yield {"type": "DATE", "values": [None] + list(range(k, 0, -1)), "cut": 1}
+        yield {"type": "DOUBLE", "values": [i * 250000 for i in range(k)] * 2, "cut": k}
     yield {"type": "DECIMAL", "values": [[110, 2], [11, 1], None, [-5, 6]], "cut": 2}
     yield {"type": "TIMESTAMP", "values": [-315619199500000, 1577836800500000, None], "cut": 1}
     yield {"type": "BOOLEAN", "values": [True, False, None, True], "cut": 2}
@@ -835,11 +829,11 @@ def exhaustive(tier):
 
 
 def generate(rng, tier):
-    count = 500 if tier == "quick" else 10000
+    count = 1200 if tier == "quick" else 16000
     for i in range(count):
-        yield _random_case(rng, TYPES[i % len(TYPES)] if i % 2 == 0 else None)
+        yield _random_case(rng, TYPES[(i // 2) % len(TYPES)] if i % 2 == 0 else None)
     # boundary stream: the guarded classes and their neighbourhood
-    for i in range(20 if tier == "quick" else 200):
+    for i in range(40 if tier == "quick" else 800):
         yield _boundary_case(rng)
 
 
